@@ -864,6 +864,7 @@ class RZILTransformer(Transformer):
         self.ext.set_token_meta_data("mem_store")
         va = items[3]
         data: Pure = items[4]
+        va = self.cast_address(va)
         operation_value_type = ValueType(items[1] == "s", items[2])
         if operation_value_type != data.value_type:
             # STOREW determines from the data type how many bytes are written.
@@ -873,6 +874,12 @@ class RZILTransformer(Transformer):
             self.add_op(MemStore(self.c_identifier(f"ms_{data.get_name()}"), va, data))
         )
 
+    def cast_address(self, va: Pure) -> Pure:
+        """Memory is addressed with 32 bits: an address expression of another width is converted first."""
+        if va.value_type.bit_width != 32:
+            va = self.init_a_cast(ValueType(False, 32), va)
+        return va
+
     # SPECIFIC FOR: Hexagon
     def mem_load(self, items):
         self.ext.set_token_meta_data("mem_load")
@@ -881,6 +888,7 @@ class RZILTransformer(Transformer):
         va = items[3]
         if not isinstance(va, Pure):
             va = self.il_ops_holder.get_op_by_name(va.value)
+        va = self.cast_address(va)
 
         return self.add_op(MemLoad(self.c_identifier(f"ml_{va.get_name()}"), va, mem_acc_type))
 
